@@ -7,6 +7,9 @@ use astria_eyre::eyre::{
     WrapErr as _,
 };
 use jsonrpsee::http_client::HttpClient as CelestiaClient;
+#[cfg(feature = "verif")]
+use sequencer_client::HttpClient as SequencerClient;
+#[cfg(not(feature = "verif"))]
 use tendermint_rpc::HttpClient as SequencerClient;
 use tokio_util::sync::CancellationToken;
 
